@@ -6,6 +6,7 @@ import (
 	"go/constant"
 	"go/token"
 	"go/types"
+	"os"
 	"strings"
 
 	"golang.org/x/tools/go/ssa"
@@ -493,6 +494,46 @@ func ruleTightGuards(c *Ctx, B *Bound, filter func(name string) bool) {
 				}
 			}
 			if rejIdx < 0 {
+				// with a deferred call the results are spilled and every return
+				// goes through a common exit: the rejecting successor is the one
+				// that makes an error value and goes straight to that exit
+				makesErr := func(s *ssa.BasicBlock) bool {
+					made := false
+					for _, in := range s.Instrs {
+						switch y := in.(type) {
+						case *ssa.Call:
+							if cal := y.Common().StaticCallee(); cal != nil && isErrorType(y.Type()) {
+								made = true
+							}
+						case *ssa.MakeInterface:
+							if isErrorType(y.Type()) {
+								made = true
+							}
+						}
+					}
+					if !made {
+						return false
+					}
+					switch t := s.Instrs[len(s.Instrs)-1].(type) {
+					case *ssa.Return:
+						return true
+					case *ssa.Jump:
+						nb := s.Succs[0]
+						_, isRet := nb.Instrs[len(nb.Instrs)-1].(*ssa.Return)
+						_ = t
+						return isRet
+					}
+					return false
+				}
+				e0, e1 := makesErr(b.Succs[0]), makesErr(b.Succs[1])
+				if e0 != e1 {
+					rejIdx = 1
+					if e0 {
+						rejIdx = 0
+					}
+				}
+			}
+			if rejIdx < 0 {
 				continue
 			}
 			// remaining bytes after the varint: len(S) - low - n
@@ -531,6 +572,9 @@ func ruleTightGuards(c *Ctx, B *Bound, filter func(name string) bool) {
 			goal, okg := gt(a.lin(x), rem)
 			proved := a.prove(b, extra, goal, okg)
 			n++
+			if os.Getenv("TIGHTDEBUG") != "" {
+				fmt.Fprintln(os.Stderr, "tightguard", a.name, a.describe(cmp), proved, a.linString(goal.E), extra)
+			}
 			c.Oblige("X.tightguard", proved, iff.Cond.Pos(), a.name, "guard on "+a.describe(x)+" rejects only what does not fit: "+a.describe(cmp),
 				"a length or count read from the data may be rejected only if it exceeds the bytes that remain after it ("+a.linString(rem)+"); a stricter test turns away valid encodings, e.g. a last entry that ends exactly at the end of the data", nil)
 		}
